@@ -221,9 +221,42 @@ def stable_roots(P, f, du, expr, site, stmt=None, depth=0):
     return out
 
 
+def site_func(P, key):
+    """The function that holds the Dask / in-memory switch of a training entry point: the entry point itself, or - when one EM
+    iteration was factored out - the helper it calls with the machine.  The helper is returned as a view in which the parameter
+    that receives the machine plays the role of `self`."""
+    import copy as _copy
+
+    f = P.func(key)
+    if switch_sites(P, f):
+        return f
+    for c in walk_no_nested(f.node):
+        if not isinstance(c, ast.Call):
+            continue
+        for t_ in P.resolve_callee(P.peel_call(c, f)[1], f):
+            if t_[0] != "repo" or t_[1] is f:
+                continue
+            g = t_[1]
+            if not switch_sites(P, g):
+                continue
+            b = P.bind_args(g, c.args, c.keywords)
+            pn = next((p_ for p_, a_ in b.items() if isinstance(a_, ast.Name) and a_.id == f.self_name), None)
+            g2 = _copy.copy(g)
+            if pn is not None and pn != g.self_name:
+                g2._self_override = pn
+            g2.cls = g.cls if g.cls is not None else f.cls
+            return g2
+    return f
+
+
+def _site(P, key):
+    f = key if not isinstance(key, str) else P.func(key)
+    return f, f.key
+
+
 def check_branch(P, R, key, rule="BRANCH"):
     """The two arms of every Dask switch call the same kernels with the same argument sources."""
-    f = P.func(key)
+    f, key = _site(P, key)
     R.analysed(f)
     du = get_defuse(f, P)
     sites = switch_sites(P, f)
@@ -319,7 +352,7 @@ def setter_expansion(P, own, ci, name):
 def check_copyback(P, R, own, key, sinks, rule="COPYBACK"):
     """In the Dask arm everything the M-step sink writes on the (serialised copy of the) machine is stored back on self
     from the computed result."""
-    f = P.func(key)
+    f, key = _site(P, key)
     du = get_defuse(f, P)
     n = 0
     for site in switch_sites(P, f):
@@ -363,7 +396,7 @@ def check_copyback(P, R, own, key, sinks, rule="COPYBACK"):
 
 def check_tasks_pure(P, R, own, key, sinks, allow=(), rule="PURE.task"):
     """Every block task other than an M-step sink leaves its arguments and the machine untouched."""
-    f = P.func(key)
+    f, key = _site(P, key)
     n = 0
     for c in walk_no_nested(f.node):
         if not isinstance(c, ast.Call):
@@ -447,7 +480,7 @@ def _rechunked(du, recv, stmt, depth=0):
 
 def check_cover_tasks(P, R, key, rule="COVER.tasks"):
     """Per-block task lists are built over the whole block list and handed whole to the reducer."""
-    f = P.func(key)
+    f, key = _site(P, key)
     du = get_defuse(f, P)
     n = 0
     for site in switch_sites(P, f):
